@@ -887,7 +887,13 @@ class Variogram(object):
         the grouping index and fitting parameters
 
         """
-        if self._n_lags is None:
+        # a rule-based binning derives the number of lag classes together
+        # with the edges: an outdated number must not be reported while the
+        # edges are waiting to be re-calculated
+        rule_based = getattr(self, '_bin_func_name', None) in (
+            'sturges', 'scott', 'fd', 'sqrt', 'doane', 'rice', 'auto'
+        )
+        if self._n_lags is None or (rule_based and self._bins is None):
             self._n_lags = len(self.bins)
         return self._n_lags
 
